@@ -53,6 +53,10 @@ def strat(tier):
         'stale_part': st.sampled_from([None, None, None, 'longer', 'shorter']),
         # length of the destination's file name: NAME_MAX is 255, the default part file appends 5 characters ('.part')
         'name_len': st.sampled_from([None, None, None, None, None, None, 250, 251, 255]),
+        # the body closes the file object itself before the with-block ends (a nested `with f:`, a wrapper that closes its stream)
+        'body_close': st.sampled_from([False, False, False, False, False, True]),
+        # the existing destination has a second hard link
+        'dest_hardlink': st.sampled_from([False, False, False, True]),
     })
 
 
@@ -94,7 +98,7 @@ def _stale(case, new):
     return b'STALE-' * (len(new) // 6 + 50) if sp == 'longer' else b'S'
 
 
-def _prepare(sandbox, old, stale=None, part_name='dest.bin.part', dest_name='dest.bin'):
+def _prepare(sandbox, old, stale=None, part_name='dest.bin.part', dest_name='dest.bin', hardlink=False):
     for name in os.listdir(sandbox):
         p = os.path.join(sandbox, name)
         if os.path.isdir(p):
@@ -106,6 +110,8 @@ def _prepare(sandbox, old, stale=None, part_name='dest.bin.part', dest_name='des
             f.write(old)
             f.flush()
             os.fsync(f.fileno())
+        if hardlink:
+            os.link(os.path.join(sandbox, dest_name), os.path.join(sandbox, 'second-link-to-dest'))
     if stale is not None and len(part_name) <= 255:
         with open(os.path.join(sandbox, part_name), 'wb') as f:
             f.write(stale)
@@ -128,16 +134,24 @@ def _body(case, chunks, overwrite, buffering, sandbox):
                 with fileutils.atomic_save(dest, **kw) as f:
                     for c in chunks:
                         f.write(c)
+                    if case.get('body_close'):
+                        f.close()
             else:
                 s = fileutils.AtomicSaver(dest, **kw)
                 s.setup()
                 f = s.part_file
                 for c in chunks:
                     f.write(c)
+                if case.get('body_close'):
+                    f.close()
                 s.__exit__(None, None, None)
         except OSError as e:
             if e.errno == errno.ENAMETOOLONG:
                 return {'done': False, 'refused': 'ENAMETOOLONG'}
+            raise
+        except ValueError as e:
+            if case.get('body_close') and 'closed' in str(e):
+                return {'done': False, 'refused': 'closed file'}      # the saver may refuse to finish a file it can no longer flush
             raise
         return {'done': True}
     return body
@@ -177,7 +191,12 @@ def run(case):
             cfg += ' [destination file name of %d characters: the part file name exceeds NAME_MAX]' % len(DEST)
         elif case.get('name_len'):
             cfg += ' [destination file name of %d characters]' % len(DEST)
-        _prepare(sandbox, old, stale, part_name, DEST)
+        hardlink = bool(case.get('dest_hardlink')) and old is not None
+        if hardlink:
+            cfg += ' [the destination has a second hard link]'
+        if case.get('body_close'):
+            cfg += ' [the body closes the file object before leaving]'
+        _prepare(sandbox, old, stale, part_name, DEST, hardlink)
         code, res = fsio.run_in_child(sandbox, body)
         if res is None or code != 0:
             raise HarnessError('recording child failed: exit %r, result %r' % (code, res))
@@ -186,19 +205,19 @@ def run(case):
         events = res['events']
         final = _dest_state(sandbox, DEST)
         refused = not res.get('done')
-        if refused and not too_long:
-            return out.fail('c04.save-raises', '%s raised ENAMETOOLONG although the part file name fits' % cfg)
+        if refused and not (too_long if res.get('refused') == 'ENAMETOOLONG' else case.get('body_close')):
+            return out.fail('c04.save-raises', '%s raised (%s) although nothing stands in the way of the save' % (cfg, res.get('refused')))
         if refused:
             # nothing may have happened
             if final != old:
-                return out.fail('c04.partial-destination', '%s: the save was refused (ENAMETOOLONG) but the destination is %s, before %s' % (
-                    cfg, _short(final), _short(old)))
+                return out.fail('c04.partial-destination', '%s: the save was refused (%s) but the destination is %s, before %s' % (
+                    cfg, res.get('refused'), _short(final), _short(old)))
             new = old if old is not None else new
         elif final != new:
             return out.fail('c04.normal-exit-content', '%s: after a normal exit the destination is %s, expected the new content %s' % (
                 cfg, _short(final), _short(new)))
         left = sorted(os.listdir(sandbox))
-        if left != ([DEST] if final is not None else []):
+        if [x for x in left if x != 'second-link-to-dest'] != ([DEST] if final is not None else []):
             return out.fail('c04.normal-exit-leftovers', '%s: after a normal exit the directory holds %r' % (cfg, [x[:20] for x in left]))
         # ---- trace oracle ----------------------------------------------
         # (VERIF_C04_NO_TRACE=1 is a self-test switch: it disables the static trace oracle so that the
@@ -236,7 +255,7 @@ def run(case):
         n_nontrivial = 0
         for idx in range(len(events)):
             for when in ('before', 'after'):
-                _prepare(sandbox, old, stale, part_name, DEST)
+                _prepare(sandbox, old, stale, part_name, DEST, hardlink)
                 code, r2 = fsio.run_in_child(sandbox, body, crash_at=(idx, when))
                 n_points += 1
                 if code != 137:
@@ -259,6 +278,10 @@ def run(case):
             out.label('destination_present')
         if stale is not None:
             out.label('stale_part_file_taken_over')
+        if hardlink:
+            out.label('destination_has_second_hard_link')
+        if case.get('body_close'):
+            out.label('body_closes_file:%s' % ('refused' if refused else 'completed'))
         if case.get('name_len'):
             out.label('name_len:%d%s' % (case['name_len'], ':refused' if refused else ''))
         if text:
